@@ -277,7 +277,7 @@ fn gen(seed: u64, size: &str, path: &str) {
         // a branch may be dropped while it leads, lags or is level; the survivor goes on alone
         // (by reference: until the next re-split brings both back; by Rc: for good)
         let (mut live_a, mut live_b, mut rc) = (true, true, variant == "rc");
-        for _ in 0..n {
+        for it in 0..n {
             if rng.chance(1, 40) { bias = *rng.pick(&[10, 50, 90, 0, 100]); }
             if !rc && rng.chance(1, 50) {
                 let to_rc = rng.chance(1, 6);
@@ -288,7 +288,7 @@ fn gen(seed: u64, size: &str, path: &str) {
                 live_b = true;
                 continue;
             }
-            if live_a && live_b && rng.chance(1, if rc { 300 } else { 80 }) {
+            if live_a && live_b && rng.chance(1, if rc { 1200 } else { 150 }) {
                 let da = rng.chance(1, 2);
                 ex.push(json!({"ev":"drop","a":{"branch": if da {"A"} else {"B"}}}));
                 if da { live_a = false } else { live_b = false }
@@ -297,7 +297,7 @@ fn gen(seed: u64, size: &str, path: &str) {
             let mut a = (rng.below(100) as i64) < bias;
             if !live_a { a = false; }
             if !live_b { a = true; }
-            let wild = h % 4 == 3 && ex.len() > n / 2;
+            let wild = h % 3 == 2 && it > n / 2;      // (by iteration, not by length: dropped branches shorten executions)
             if !wild && a && pa + 1 - pb > cap { if live_b { a = false } else { continue } }
             if !wild && !a && pb + 1 - pa > cap { if live_a { a = true } else { continue } }
             if a { pa += 1 } else { pb += 1 }
